@@ -356,11 +356,14 @@ def replay(w):
 def cases(tier, kind):
     k = (3 if kind == "clustalo" else 2) if tier == "quick" else (4 if kind == "clustalo" else 3)
     out = []
-    for first in range(len(OPS)):
+    # one case per first operation (per first two operations for longer sequences: cases are the unit of distribution over
+    # the worker processes, and the sequences that begin with 'start' are by far the most expensive ones)
+    heads = [(f, None) for f in range(len(OPS))] if k < 3 else [(f, g) for f in range(len(OPS)) for g in range(len(OPS))]
+    for first, second in heads:
         ops = [z3.Int(f"op{i}") for i in range(k)]
         launch_ok, hang, exit_ok = z3.Bools("launch_ok hang exit_ok")
         outkind, perm = z3.Ints("outkind perm")
-        base = [ops[0] == first, outkind >= 0, outkind <= 3, perm >= 0, perm < 6,
+        base = ([ops[1] == second] if second is not None else []) + [ops[0] == first, outkind >= 0, outkind <= 3, perm >= 0, perm < 6,
                 z3.Implies(z3.And(outkind != 0, outkind != 3), perm == 0), z3.Implies(outkind == 3, perm < 3),
                 z3.Implies(z3.Not(launch_ok), z3.And(z3.Not(hang), exit_ok, outkind == 0)),
                 z3.Implies(hang, z3.And(exit_ok, outkind == 0)), z3.Implies(z3.Not(exit_ok), z3.Or(outkind == 0, outkind == 3))]
@@ -373,7 +376,7 @@ def cases(tier, kind):
             env = (ex.decide(launch_ok), ex.decide(hang), ex.decide(exit_ok), ex.choose(outkind, range(4)), ex.choose(perm, range(6)))
             ok, why = run_sequence(kind, env, seq)
             return ok
-        out.append(Case(f"{kind} first={OPS[first]} k={k}", base, run,
+        out.append(Case(f"{kind} first={OPS[first]}{'' if second is None else ' second=' + OPS[second]} k={k}", base, run,
                         dict(kind=kind, ops=ops, launch_ok=launch_ok, hang=hang, exit_ok=exit_ok, outkind=outkind, perm=perm),
                         replay, known=KNOWN(kind, ops, launch_ok, hang, exit_ok, outkind)))
     return out
